@@ -104,7 +104,7 @@ def run_post_case(case, step_limit=400000):
                          trace_files=[files["activeobject"], files["hsm"]])
   out["sched"] = s
   try:
-    s.run(body)
+    detsched.guarded_run(s, body)
   except detsched.Deadlock as e:
     out["failure"] = ("deadlock", str(e))
   except detsched.StepLimit as e:
